@@ -95,6 +95,7 @@ type l1World struct {
 	ids          []uint64
 	nextID       uint64 // model of the next bridge id
 	feePool      sdk.AccAddress
+	bulkPaid     int
 	feeCollector sdk.AccAddress
 	fee          sdk.Coins
 	log          []string
@@ -127,6 +128,11 @@ func newL1World(rt *rapid.T, cfg l1Cfg) *l1World {
 	e := henv.NewL1(henv.L1Options{NoHook: true})
 	w := &l1World{e: e, cfg: cfg, bridges: map[uint64]*mBridge{}, nextID: 1, stats: map[string]int{}, ghostDeposits: map[uint64]int{}}
 	w.denoms = []string{"uinit", "uusdc", "ibc/27394FB092D2ECCD56123C74F36E4C1F926001CEADA9CA97EA622B25F41E5EB2"}
+	if rapid.IntRange(0, 2).Draw(rt, "l2LookingDenom") == 0 {
+		// the host chain is itself a rollup: one of its coins carries exactly the name that "uinit" gets on the
+		// L2 of bridge 1. It is a coin like any other: deposited, committed and paid out under its own name.
+		w.denoms = append(w.denoms, ref.L2Denom(1, "uinit"))
+	}
 	for i := 0; i < 6; i++ {
 		u := henv.MakeUser(fmt.Sprintf("l1-%d", i))
 		w.users = append(w.users, u)
@@ -924,6 +930,35 @@ func (w *l1World) finalByModel(b *mBridge, o *mOutput) (must, may bool) {
 }
 
 func (w *l1World) history() string { return strings.Join(w.log, "\n") }
+
+// restart exports the chain and starts a fresh one from that genesis (as it stands in memory; C16 and the
+// two-chain machines go through JSON). Block time goes on. The block height goes on as well, or - a new
+// chain started from an exported state need not keep its numbering - starts again at 1 or a few blocks
+// below the height recorded in one of the stored outputs, so that the new chain passes that number again.
+func (w *l1World) restart(rt *rapid.T) {
+	gs := w.e.K.ExportGenesis(w.e.Ctx)
+	h := w.e.Ctx.BlockHeight()
+	switch rapid.IntRange(0, 5).Draw(rt, "restartHeight") {
+	case 0:
+		h = 1
+	case 1, 2:
+		var hs []int64
+		for _, id := range w.ids {
+			for _, o := range w.bridges[id].Outputs {
+				hs = append(hs, o.Height)
+			}
+		}
+		if len(hs) > 0 {
+			if h = hs[rapid.IntRange(0, len(hs)-1).Draw(rt, "restartAt")] - int64(rapid.IntRange(0, 2).Draw(rt, "restartBelow")); h < 1 {
+				h = 1
+			}
+		}
+	}
+	n := importL1(w.e, gs)
+	n.Ctx = n.Ctx.WithBlockHeight(h)
+	w.logf("genesis export -> import (height %d -> %d)", w.e.Ctx.BlockHeight(), h)
+	w.e = n
+}
 
 // allHashes returns the leaf hash of every tuple ever generated for bridge id.
 func (w *l1World) allTuples() []wd {
